@@ -19,6 +19,21 @@ str.lower() accept or reject - 3, '3', '+3', ' 3', '3 ', ' +3 ', '03', '3_2_767'
 'BOTTOM', null, stale and missing ids, ids of hidden elements and (in malformed streams)
 '0x3', '+ 3', '3_', '_3', '3.0', ' top', '' ... - and `py_int_mirror` below (the harness'
 copy of Spec/OrderSpec.v py_int) is compared with the real int() on each generated string.
+
+(c) unknown ids on ARRAY dimensions (added after seeded change C07-6: the last-resort "take the id as
+the subvariable's position" step of _ElementIdShim.translate_element_id lost its 0 <= id < n range
+check, so a stale -1 / '-1' named the LAST subvariable, which was placed where the stale id stood and
+stole "first mention"; (a) could not see it because the model of an array dimension is fed with the ids
+the implementation translated).  Relational oracle on the implementation alone, from "unknown ids
+ignored": a reference that certainly names no item of an MR / CA-subvariables / numeric-array dimension
+(no alias, subvariable id or element id in any spelling and, as a number, outside 0..n-1 - decided from
+the raw response by `matches_nothing`) is removed from the explicit id list (and from the hide / rename
+keys, whose hidden set feeds the order) and the partition must show the same orders, codes, labels and
+shape as with it.  The leg runs on every case; a stream of its own (`gen_stale_ref_case`: MR strands,
+MR x CAT, CAT x MR, MR x MR, CA, numeric array alone and by CAT; this check's array variables and those
+of C19's generator with zero-based / sparse / negative element ids) writes such references - negative
+ints and numeric strings in -n..-1 and below -n (the class no stream produced before), numbers >= n,
+non-numeric strings - at the front of / inside explicit lists and as element-transform keys.
 """
 import copy
 import itertools
@@ -268,6 +283,280 @@ def gen_case(rng, k, malformed_rate=0.06):
 
 
 # ------------------------------------------------------------------------------------
+# (c) references to items of an ARRAY dimension that match nothing are ignored
+# ------------------------------------------------------------------------------------
+#
+# The model of an array dimension is fed with the ids the implementation translated (the
+# spellings of an item are C19's), so the correspondence (a) cannot see an id that is
+# translated to the WRONG thing.  What C07 says itself is "unknown ids ignored": an id
+# that names no item - no alias, no subvariable id, no element id (int or string) and, as
+# a number, no zero-based position 0..n-1 - must leave no trace: the same transforms
+# without it must give the same partition.  `matches_nothing` only answers True when that
+# is certain from the raw response (anything that looks like a known name in ANY spelling
+# is left alone), so the leg needs no reading of the translation cascade.
+
+NUMERIC_MEASURES = ("mean", "sum", "stddev", "median")
+
+
+def array_facts(dim_dict):
+    """names of the items of a raw subvariables dimension dict, None for any other dimension"""
+    t = (dim_dict or {}).get("type") or {}
+    if t.get("class") != "enum" or (t.get("subtype") or {}).get("class") not in ("variable", "num_arr"):
+        return None
+    aliases, eids, svids = [], [], []
+    for e in t.get("elements") or []:
+        val = e.get("value") if isinstance(e.get("value"), dict) else {}
+        refs = val.get("references") or {}
+        eids.append(e.get("id"))
+        aliases.append(refs["alias"] if "alias" in refs else e.get("id"))
+        if "id" in val:
+            svids.append(val["id"])
+    return {"aliases": aliases, "eids": eids, "svids": svids, "n": len(eids),
+            "kind": "numeric-array" if t["subtype"]["class"] == "num_arr" else "subvariables"}
+
+
+def numeric_array_dim_dict(response):
+    """the subvariables dimension a numeric-array measure stands for (items = the subvariables of
+    the measure: element id = position, subvariable id, alias of the subreference), or None"""
+    meas = (response.get("result") or {}).get("measures") or {}
+    for name in NUMERIC_MEASURES:
+        md = (meas.get(name) or {}).get("metadata") or {}
+        subvars = (md.get("type") or {}).get("subvariables")
+        if name in meas:
+            if not subvars:
+                return None
+            subrefs = (md.get("references") or {}).get("subreferences") or []
+            els = [{"id": i, "value": {"id": sv, "references": {
+                "alias": subrefs[i].get("alias") if subrefs else None}}} for i, sv in enumerate(subvars)]
+            return {"type": {"class": "enum", "subtype": {"class": "num_arr"}, "elements": els}}
+    return None
+
+
+def array_facts_by_key(response, strand):
+    """{'rows_dimension': facts | None[, 'columns_dimension': ...]} from the raw response alone"""
+    keys = ["rows_dimension"] if strand else ["rows_dimension", "columns_dimension"]
+    try:
+        dds = list(ou.displayed_dim_dicts(response))
+        na = numeric_array_dim_dict(response)
+        if na is not None:
+            dds = [na] + dds
+        dds = dds[:1] if strand else dds[-2:]
+        if len(dds) != len(keys):
+            return {}
+        return {key: array_facts(dd) for key, dd in zip(keys, dds)}
+    except (KeyError, TypeError, AttributeError, IndexError):
+        return {}
+
+
+def matches_nothing(x, facts):
+    """True only when reference x CERTAINLY names no item of the array dimension"""
+    if x is None or isinstance(x, (bool, float)) or not isinstance(x, (int, str)):
+        return False
+    known = [k for k in facts["aliases"] + facts["eids"] + facts["svids"] if k is not None]
+    known_strs = set(str(k).strip() for k in known)
+    if str(x) in known_strs or str(x).strip() in known_strs:
+        return False
+    if isinstance(x, str):
+        if not all(ord(c) < 128 for c in x):
+            return False
+        z = real_int(x)
+        if z is None:
+            return True                      # no name and no number
+    else:
+        z = x
+    if str(z) in known_strs or any(isinstance(k, int) and k == z for k in known):
+        return False
+    return not (0 <= z < facts["n"])
+
+
+def stale_ref_class(x, facts):
+    z = x if isinstance(x, int) else real_int(x)
+    sp = "int" if isinstance(x, int) else "str"
+    if z is None:
+        return "non-numeric"
+    if z < 0:
+        return "negative-%s(%s)" % ("within-minus-n" if -facts["n"] <= z else "below-minus-n", sp)
+    return "too-large(%s)" % sp
+
+
+def stale_refs_pool(rng, facts):
+    """references that match nothing on the dimension: negative numbers from -1 down to -n (what a
+    position counted from the end would be) and below, numbers >= n, junk - as int and as string"""
+    n = facts["n"]
+    negs = list(range(-n, 0)) + [-n - 1, -n - 2, -2 * n - 1, -1000]
+    out = []
+    for z in negs:
+        out += [z, str(z)]
+        if rng.random() < 0.15:
+            out += [" %d" % z, "%d " % z, "-0%d" % -z]
+    out += [n + 5, str(n + 5), 999, "999", 32767, "nope", "zz_i9", "0x1", "1.0", "", "--1", "- 1"]
+    return [x for x in out if matches_nothing(x, facts)]
+
+
+def known_refs_pool(facts):
+    out = []
+    for k in facts["aliases"] + facts["eids"] + facts["svids"]:
+        if k is not None and not isinstance(k, (bool, float)):
+            out.append(k)
+            if isinstance(k, int) and k >= 0:
+                out.append(str(k))
+    return out
+
+
+def add_stale_refs(rng, t, facts, slots=("explicit", "hide")):
+    """write references that match nothing into the slots of transforms dict t (one dimension)
+    that take an item reference; -> [(slot, reference)]"""
+    pool = stale_refs_pool(rng, facts)
+    # mostly one class at a time, the negative numbers from -1 to -n first (-1 / '-1' is what a
+    # removed 'No Data' leaves, and what a position counted from the end would be)
+    want = rng.choice(["negative-within", "negative-within", "negative-within", "negative-below",
+                       "too-large", "non-numeric", ""])
+    pool = [x for x in pool if stale_ref_class(x, facts).startswith(want)] or pool
+    known = known_refs_pool(facts)
+    done = []
+    if not pool:
+        return done
+    r = rng.random()
+    if "explicit" in slots and (r < 0.8 or "hide" not in slots):
+        ids = [rng.choice(known) for _ in range(rng.randint(0, facts["n"] + 1))] if known else []
+        for _ in range(rng.choice([1, 1, 1, 2, 3])):
+            x = rng.choice(pool)
+            ids.insert(0 if rng.random() < 0.4 else rng.randint(0, len(ids)), x)
+            done.append(("explicit", x))
+        t["order"] = {"type": "explicit", "element_ids": ids}
+    if "fixed" in slots and isinstance(t.get("order"), dict) and rng.random() < 0.8:
+        fixed = dict(t["order"].get("fixed") or {})
+        for end in rng.choice([("top",), ("bottom",), ("top", "bottom")]):
+            l = list(fixed.get(end) or [])
+            x = rng.choice(pool)
+            l.insert(rng.randint(0, len(l)), x)
+            fixed[end] = l
+            done.append(("fixed-" + end, x))
+        t["order"]["fixed"] = fixed
+    if "hide" in slots and (r >= 0.8 or rng.random() < 0.3):
+        els = dict(t.get("elements") or {})
+        for _ in range(rng.choice([1, 1, 2])):
+            x = rng.choice(pool)
+            if isinstance(x, int) and rng.random() < 0.6:
+                x = str(x)              # keys of a JSON object are strings
+            if x in els or str(x) in [str(k) for k in els]:
+                continue
+            payload = {"hide": True} if rng.random() < 0.8 else {"name": "renamed stale"}
+            els[x] = payload
+            done.append(("hide" if "hide" in payload else "rename", x))
+        t["elements"] = els
+    return done
+
+
+def drop_unmatched_refs(transforms, facts_by_key):
+    """-> (transforms without the references that match nothing on array dimensions, [(key, slot, ref)])"""
+    out = copy.deepcopy(transforms) if transforms else {}
+    dropped = []
+    for key, facts in facts_by_key.items():
+        t = out.get(key)
+        if facts is None or not isinstance(t, dict):
+            continue
+        od = t.get("order")
+        if isinstance(od, dict):
+            lists = []
+            if od.get("type") == "explicit" and isinstance(od.get("element_ids"), list):
+                lists.append((od, "element_ids", "explicit"))
+            fx = od.get("fixed")
+            if isinstance(fx, dict):
+                lists += [(fx, end, "fixed-" + end) for end in ("top", "bottom") if isinstance(fx.get(end), list)]
+            for holder, name, slot in lists:
+                keep = []
+                for x in holder[name]:
+                    if matches_nothing(x, facts):
+                        dropped.append((key, slot, x))
+                    else:
+                        keep.append(x)
+                holder[name] = keep
+        els = t.get("elements")
+        if isinstance(els, dict) and "key" not in els:
+            for x in list(els.keys()):
+                if matches_nothing(x, facts):
+                    dropped.append((key, "element-transform", x))
+                    del els[x]
+    return out, dropped
+
+
+def observe_run(case, transforms):
+    r = impl.guarded(lambda: impl.partition(copy.deepcopy(case["response"]), copy.deepcopy(transforms)))
+    if r[0] != "ok":
+        return {"partition": ("exc", r[1])}
+    return ou.observe(r[1], case["strand"])
+
+
+def unmatched_refs_leg(case, rep):
+    """(c): the partition with the references that match nothing == the partition without them"""
+    facts = array_facts_by_key(case["response"], case["strand"])
+    if not any(facts.values()):
+        return
+    t2, dropped = drop_unmatched_refs(case["transforms"], facts)
+    if not dropped:
+        return
+    rep.dist("leg-c:cases-with-unmatched-array-references")
+    for key, slot, x in dropped:
+        rep.dist("leg-c:%s:%s:%s" % (facts[key]["kind"], slot, stale_ref_class(x, facts[key])))
+    a, b = observe_run(case, case["transforms"]), observe_run(case, t2)
+    if a != b:
+        diff = sorted(k for k in set(a) | set(b) if a.get(k) != b.get(k))
+        rep.violation("unmatched-reference-not-ignored", _replayable(case),
+                      {"what": "unknown-ids-ignored", "unmatched_references": dropped,
+                       "differs": diff, "with": {k: a.get(k) for k in diff[:4]},
+                       "without": {k: b.get(k) for k in diff[:4]}, "transforms_without": t2},
+                      {"what": "unknown-ids-ignored"})
+
+
+def array_var(rng, alias, kind):
+    """an array variable: this check's own (ids 1..n or sparse, derived items) or, half of the time,
+    the generator of C19's check (zero-based / sparse / shuffled / negative element ids, subvariable
+    ids that are digits, aliases that collide with another item's id, missing and inserted items)"""
+    if rng.random() < 0.5:
+        return make_var(rng, alias, [kind])
+    from harness.props import c19_util
+    return c19_util.make_array_var(rng, alias, kind)
+
+
+def gen_stale_ref_case(rng, k, slots=("explicit", "hide")):
+    """stream of leg (c): MR / CA / numeric-array dimensions (strands, rows, columns) whose explicit
+    order, hide / rename keys name references that match nothing - above all negative numbers"""
+    from harness.props import c19_util
+    layout = rng.choice(["mr", "mr_x_cat", "cat_x_mr", "mr_x_mr", "ca", "numarr", "numarr_x_cat"])
+    strand = layout in ("mr", "numarr")
+    transforms = {}
+    if layout.startswith("numarr"):
+        resp = c19_util.numarr_response(rng, rng.randint(1, 5), by_cat=(layout == "numarr_x_cat"))
+    else:
+        cat = lambda a: make_var(rng, a, ["cat"])                      # noqa: E731
+        variables, aliases = {
+            "mr": lambda: ([array_var(rng, "r", "mr")], ["r"]),
+            "mr_x_cat": lambda: ([array_var(rng, "r", "mr"), cat("c")], ["r", "c"]),
+            "cat_x_mr": lambda: ([cat("r"), array_var(rng, "c", "mr")], ["r", "c"]),
+            "mr_x_mr": lambda: ([array_var(rng, "r", "mr"), array_var(rng, "c", "mr")], ["r", "c"]),
+            "ca": lambda: ([array_var(rng, "a", "ca")], ["a"]),
+        }[layout]()
+        if layout != "ca":
+            for key, v in zip(("rows_dimension", "columns_dimension"), variables):
+                if v.kind == "cat" and rng.random() < 0.5:
+                    transforms[key] = cat_dim_transforms(rng, v, strand=strand)
+        sv = gen.Survey(variables, rng.choice([3, 8, 15, 30]), rng)
+        resp = gen.cube_response(sv, aliases)
+    facts = array_facts_by_key(resp, strand)
+    written = []
+    for key, f in facts.items():
+        if f is None:
+            continue
+        t = transforms.setdefault(key, {})
+        if rng.random() < 0.2:
+            t["prune"] = True
+        written += add_stale_refs(rng, t, f, slots)
+    return {"k": k, "strand": strand, "response": resp, "transforms": transforms, "malformed": False,
+            "stale_refs": layout if written else None}
+
+
+# ------------------------------------------------------------------------------------
 # one case: implementation, model terms, comparison
 # ------------------------------------------------------------------------------------
 
@@ -401,8 +690,11 @@ def run_cases(rep, cases, probe=False):
         check_spelling_probe(rep, probe_strings, results[-1])
     pos = 0
     for case, p in zip(cases, preps):
+        if case.get("stale_refs"):
+            rep.dist("stream:stale-array-references:" + case["stale_refs"])
+        unmatched_refs_leg(case, rep)
         if not isinstance(p, dict):
-            rep.count_case(_replayable(case), False)
+            rep.count_case(_replayable(case), bool(case.get("stale_refs")))
             rep.dist("skipped:" + p[1].split(":")[0])
             if p[1].startswith("partition-raises") and not case.get("malformed"):
                 rep.violation("impl-exception", _replayable(case), {"why": p[1]},
@@ -466,6 +758,12 @@ def run(tier, seed):
     rng = random.Random(seed)
     cases = [gen_case(rng, k) for k in range(n_cases)]
     cases += small_scope_cases(rng, 150 if tier == "quick" else 2904)
+    # own generator state: the streams above stay what they were for a given seed
+    rng_sr = random.Random("C07-stale-array-references-%s" % seed)
+    n_sr = 150 if tier == "quick" else 2000
+    # the explicit id list alone first (it is this property's slot), then together with hide / rename keys
+    cases += [gen_stale_ref_case(rng_sr, len(cases) + k, ("explicit",) if k < n_sr // 2 else ("explicit", "hide"))
+              for k in range(n_sr)]
     coq_s, n_terms = run_cases(rep, cases, probe=True)
     rep.cov["rule"] = (
         "cases from random.Random(seed): CAT / MR (with derived before/after/top/bottom items) / CA "
@@ -479,13 +777,22 @@ def run(tier, seed):
         "(3 elements x 2 insertions x 11 anchors^2 x 4 explicit lists x 3 hidden sets; sampled in "
         "quick, exhaustive in thorough); + a probe of the model's int() / lower() against Python's "
         "on every generated anchor string and a fixed list (tabs, newlines, underscores, signs, hex, "
-        "25-digit numbers). non-trivial = some insertion, explicit order, prune or array dimension "
-        "present; distinct by content hash")
+        "25-digit numbers); + leg (c) stream, 150 cases (2000 thorough, own generator state): MR / CA / "
+        "numeric-array dimensions as strand, rows or columns with explicit id lists (first half) and hide / "
+        "rename keys (second half) naming references that match nothing: negative ints / numeric strings "
+        "in -n..-1 and below -n, numbers >= n, non-numeric strings (distribution keys leg-c:<dimension "
+        "kind>:<slot>:<class>); leg (c) itself runs on every case of every stream. non-trivial = some "
+        "insertion, explicit order, prune or array dimension present; distinct by content hash")
     rep.cov["coq_eval_seconds"] = round(coq_s, 2)
     rep.cov["model_terms_evaluated"] = n_terms
     rep.assumptions = [
         "for array (MR/CA subvariable) dimensions the shimmed element ids / order ids / hidden set are "
-        "taken from the implementation (identifier translation is owned by C19)",
+        "taken from the implementation (identifier translation is owned by C19); leg (c) alone is independent "
+        "of it: which references match nothing is decided from the raw response, conservatively (anything "
+        "that equals an alias / subvariable id / element id in some spelling, bools, floats, null and "
+        "non-ASCII strings are left alone)",
+        "NUM_ARRAY x CAT slices are outside the model correspondence (a) (skipped:dims-unavailable); they are "
+        "checked by leg (c) only",
         "empty-vector indexes are the implementation's own pruning masks (the pruning rule is C09's)",
         "anchors / ids that are floats or bools, and anchor strings with non-ASCII characters (int() reads "
         "non-ASCII digits and blanks, lower() non-ASCII letters) are outside the model (Spec/OrderSpec.v "
